@@ -762,7 +762,8 @@ def fs_cases(ctx, items):
     valid RING, a rule, invalid multi-line RING, undefined labels, non-UTF-8 bytes, nothing, or is a directory / a symlink"""
     rng = ctx.rng
     names = list(dict.fromkeys(FS_NAMES))
-    pool = [t for _, t, _ in items if fs_name_ok(t)]
+    reserved = set(names) | {'sub', '_target_of_links'}
+    pool = sorted({t for _, t, _ in items if fs_name_ok(t) and t not in reserved})
     names += rng.sample(pool, min(len(pool), ctx.n(60, 600)))
     cases = []
     k = 0
